@@ -409,12 +409,14 @@ def run_part(rep, tier, seed, replay_case=None):
             viol = [("oracle-error", "oracle failed on this case: %r" % (ex,))]
         if m != o:
             mism += 1
+            shown = False
             if viol:
                 kl, text = viol[0]
-                rep.violation("static-map: model and implementation differ AND the property fails on the implementation: " + text,
-                              case=case, model=m, impl=o, theorem="correspondence C07 static map (read/write outputs)", klass=kl)
-            else:
-                rep.violation("static-map correspondence broken: model and implementation differ on this input (property oracle holds on it)",
+                shown = rep.violation("static-map: model and implementation differ AND the property fails on the implementation: " + text,
+                                      case=case, model=m, impl=o, theorem="correspondence C07 static map (read/write outputs)", klass=kl)
+            if not shown:
+                # no oracle verdict, or only one of a recorded class: the disagreement itself must still be reported
+                rep.violation("static-map correspondence broken: model and implementation differ on this input (property oracle holds on it, or fails only in a recorded class)",
                               case=case, model=m, impl=o, theorem="correspondence C07 static map (read/write outputs)", found_input=False)
         else:
             for kl, text in viol:
